@@ -545,6 +545,33 @@ def large_parameter_pmf():
          D.DistDiscreteUniform(Lattice(), -2 ** 40, 2 ** 40),
          stats.randint(-2 ** 40, 2 ** 40 + 1)),
     ]
+    # parameters at the closed end of their documented range: the whole mass
+    # sits on one value
+    for nm, mk, ref in [
+            ("Geometric(1.0)", lambda: D.DistGeometric(Lattice(), 1.0),
+             stats.geom(1.0, loc=-1)),
+            ("NegBinomial(3,1.0)", lambda: D.DistNegBinomial(Lattice(), 3, 1.0),
+             stats.nbinom(3, 1.0)),
+            ("NegBinomial(40,1.0)",
+             lambda: D.DistNegBinomial(Lattice(), 40, 1.0),
+             stats.nbinom(40, 1.0)),
+            ("Binomial(5,0.0)", lambda: D.DistBinomial(Lattice(), 5, 0.0),
+             stats.binom(5, 0.0)),
+            ("Binomial(5,1.0)", lambda: D.DistBinomial(Lattice(), 5, 1.0),
+             stats.binom(5, 1.0)),
+            ("Binomial(40,1.0)", lambda: D.DistBinomial(Lattice(), 40, 1.0),
+             stats.binom(40, 1.0)),
+            ("Bernoulli(0.0)", lambda: D.DistBernoulli(Lattice(), 0.0),
+             stats.bernoulli(0.0)),
+            ("Bernoulli(1.0)", lambda: D.DistBernoulli(Lattice(), 1.0),
+             stats.bernoulli(1.0)),
+            ("DiscreteUniform(4,4)",
+             lambda: D.DistDiscreteUniform(Lattice(), 4, 4),
+             stats.randint(4, 5))]:
+        try:
+            cases.append((nm, mk(), ref))
+        except Exception:  # noqa  (which parameters are accepted is C14's)
+            pass
     n = 0
     bad = []
     for name, d, ref in cases:
